@@ -206,6 +206,26 @@ Theorem C08_conc_chain_read_complete :
 Proof. exact conc_chain_read. Qed.
 Print Assumptions C08_conc_chain_read_complete.
 
+(* C08_remote_has_mount does NOT extend to every schedule. FULL STATEMENT (false): for every schedule, a snapshot
+   committed as remote (EvRemoteCommit id) that is in metadata while the snapshotter is open has exactly one backend
+   mount. Refuted by callers that remove and re-prepare a key while a Prepare on that key is between its backend
+   Mount and its internal commit: the held Prepare commits the NEW snapshot of that key as its target, remote and
+   unmounted (finding F67, replayed on the implementation by cmd/snapconc scenario "key-reuse"). The provable part is
+   the sequential theorem C08_remote_has_mount above (schedules in which calls do not overlap; the single-thread
+   behaviour of the concurrent machine is tied to the code by the second harness entry, not by a theorem). *)
+Theorem C08_conc_remote_has_mount_refuted :
+  exists a sched id, let s := base (cexec (cinit a) sched) in
+    In (EvRemoteCommit id) (log s) /\ closed s = false /\ In id (ids_of (meta s)) /\ mount_count s id = 0.
+Proof.
+  exists false,
+    [Start 0 (Prepare 30 None (mkL (Some 31) false 0) true []); Step 0; Step 0;
+     Start 1 (Remove 30 []); Step 1; Step 1; Step 1;
+     Start 1 (Prepare 30 None no_labels true []); Step 1;
+     Step 0], 2.
+  vm_compute. repeat split; auto 10.
+Qed.
+Print Assumptions C08_conc_remote_has_mount_refuted.
+
 (* Non-vacuity of the concurrent machine: while thread 0's Prepare-with-target sits between its backend Mount and
    its internal commit, thread 2 starts Mounts of the active snapshot k2 and thread 1 removes k2 (metadata, Unmount,
    RemoveAll as three separate steps) before thread 2 continues; results so far and the mount table. *)
